@@ -77,6 +77,34 @@ def txn_events(trace):
     return per
 
 
+def fresh_project_storm(viol, stats, rounds):
+    """Eight commands (builds and queries) started at the same instant on a directory that has no .redo yet: all of
+    them open, configure (journal mode) and possibly create the database together.  They are started by one shell
+    with `&` (Popen one by one is too slow: the first would be done configuring before the last starts)."""
+    cmds = ["redo -j2 t1", "redo-ood", "redo -j2 t2", "redo-sources", "redo-targets", "redo-ifchange t3", "redo-sources", "redo-targets"]
+    script = "\n".join("(%s >o%d 2>e%d; echo $? >r%d) &" % (c, k, k, k) for k, c in enumerate(cmds)) + "\nwait\n"
+    pr = Project()
+    try:
+        for rnd in range(rounds):
+            sub = "s%d" % rnd
+            for i in range(1, 5):
+                pr.write("%s/t%d.do" % (sub, i), "echo t%d\n" % i)
+            rc, out, err = pr.run(["sh", "-c", script], cwd=sub, timeout=90)
+            stats["rounds"] += 1
+            stats["commands"] += len(cmds)
+            stats["storm_rounds"] = stats.get("storm_rounds", 0) + 1
+            for k, c in enumerate(cmds):
+                r = (pr.read("%s/r%d" % (sub, k)) or b"-999").decode().strip()
+                if r != "0":
+                    e = (pr.read("%s/e%d" % (sub, k)) or b"").decode("utf-8", "replace")
+                    p = write_replay("C16", "storm-%d" % rnd, dict(kind="impl-monitor", scenario=dict(commands=cmds, fresh_project=True, started="by one shell with &"), command=c, rc=r, stderr=e[-1500:]))
+                    viol.append(Violation("C16", p, "eight commands started together on a fresh project: `%s` exited %s although every script succeeds: %s" %
+                                          (c, r, e.strip().splitlines()[-1][:160] if e.strip() else "")))
+                    return
+    finally:
+        pr.destroy()
+
+
 def run(ctx):
     rng = random.Random(ctx["seed"] * 13 + 16)
     viol = ctx.setdefault("violations", [])
@@ -87,6 +115,8 @@ def run(ctx):
     samples = []
     kf = {k["id"]: k for k in known_findings("C16") if k.get("status") == "known"}
     fresh_project_race(viol, stats, samples)
+    if not viol:
+        fresh_project_storm(viol, stats, 150 if thorough else 30)
     for rnd in range(rounds if not viol else 0):
         pr = Project()
         try:
